@@ -569,9 +569,12 @@ def erase(P: Program, f: Func) -> Func:
 
     class T(ast.NodeTransformer):
         def visit_Attribute(self, a: ast.Attribute):
+            r0 = _ctor(a.value, recs) if isinstance(a.ctx, ast.Load) else None
             a = self.generic_visit(a)
             if not isinstance(a.ctx, ast.Load):
                 return a
+            if r0 is not None and a.attr in r0.fields and isinstance(a.value, ast.Tuple) and len(a.value.elts) == len(r0.fields):
+                return a.value.elts[r0.fields.index(a.attr)]          # R(x, y).f  ->  x
             r = ty.of(a.value)
             if r is None:
                 return a
